@@ -67,18 +67,22 @@ def anonOf (e : Env) : List Step → Bool → Bool
   | [], acc => acc
   | s :: ss, acc => anonOf e ss (match s.act with | .setCipherList => if s.guard.eval e then e.cfg.ciphers == .enablesAnon else acc | _ => acc)
 
+def depthOf (e : Env) : List Step → Option Int → Option Int
+  | [], acc => acc
+  | s :: ss, acc => depthOf e ss (match s.act with | .setVerifyDepth => if s.guard.eval e then some e.cfg.verifyDepth else acc | _ => acc)
+
 theorem runSteps_eq (e : Env) (f : Files) (ss : List Step) (c : Ctx) :
     runSteps e f ss c =
       if refusedIn e f ss then none
       else some { role := c.role, verify := verifyOf e ss c.verify, minProto := minOf e ss c.minProto,
                   trust := trustOf e ss c.trust, certLoaded := certOf e ss c.certLoaded, keyLoaded := keyOf e ss c.keyLoaded,
-                  anon := anonOf e ss c.anon } := by
+                  anon := anonOf e ss c.anon, depth := depthOf e ss c.depth } := by
   induction ss generalizing c with
-  | nil => simp [runSteps, refusedIn, verifyOf, minOf, trustOf, certOf, keyOf, anonOf]
+  | nil => simp [runSteps, refusedIn, verifyOf, minOf, trustOf, certOf, keyOf, anonOf, depthOf]
   | cons s ss ih =>
     obtain ⟨g, act⟩ := s
     cases hg : g.eval e
-    · simp [runSteps, stepCtx, hg, ih, refusedIn, stepRefuses, verifyOf, minOf, trustOf, certOf, keyOf, anonOf]
+    · simp [runSteps, stepCtx, hg, ih, refusedIn, stepRefuses, verifyOf, minOf, trustOf, certOf, keyOf, anonOf, depthOf]
       cases act <;> simp
       rename_i x; cases x <;> simp
     · cases act with
@@ -86,13 +90,14 @@ theorem runSteps_eq (e : Env) (f : Files) (ss : List Step) (c : Ctx) :
         cases hx : f.holds x
         · simp [runSteps, stepCtx, hg, hx, refusedIn, stepRefuses]
         · cases x <;>
-            simp [runSteps, stepCtx, hg, hx, ih, refusedIn, stepRefuses, verifyOf, minOf, trustOf, certOf, keyOf, anonOf]
+            simp [runSteps, stepCtx, hg, hx, ih, refusedIn, stepRefuses, verifyOf, minOf, trustOf, certOf, keyOf, anonOf, depthOf]
       | fail => simp [runSteps, stepCtx, hg, refusedIn, stepRefuses]
-      | setVerify fl => simp [runSteps, stepCtx, hg, ih, refusedIn, stepRefuses, verifyOf, minOf, trustOf, certOf, keyOf, anonOf]
-      | defaultVerifyPaths => simp [runSteps, stepCtx, hg, ih, refusedIn, stepRefuses, verifyOf, minOf, trustOf, certOf, keyOf, anonOf]
-      | applyFloor => simp [runSteps, stepCtx, hg, ih, refusedIn, stepRefuses, verifyOf, minOf, trustOf, certOf, keyOf, anonOf]
-      | setCipherList => simp [runSteps, stepCtx, hg, ih, refusedIn, stepRefuses, verifyOf, minOf, trustOf, certOf, keyOf, anonOf]
-      | other n => simp [runSteps, stepCtx, hg, ih, refusedIn, stepRefuses, verifyOf, minOf, trustOf, certOf, keyOf, anonOf]
+      | setVerify fl => simp [runSteps, stepCtx, hg, ih, refusedIn, stepRefuses, verifyOf, minOf, trustOf, certOf, keyOf, anonOf, depthOf]
+      | defaultVerifyPaths => simp [runSteps, stepCtx, hg, ih, refusedIn, stepRefuses, verifyOf, minOf, trustOf, certOf, keyOf, anonOf, depthOf]
+      | applyFloor => simp [runSteps, stepCtx, hg, ih, refusedIn, stepRefuses, verifyOf, minOf, trustOf, certOf, keyOf, anonOf, depthOf]
+      | setCipherList => simp [runSteps, stepCtx, hg, ih, refusedIn, stepRefuses, verifyOf, minOf, trustOf, certOf, keyOf, anonOf, depthOf]
+      | setVerifyDepth => simp [runSteps, stepCtx, hg, ih, refusedIn, stepRefuses, verifyOf, minOf, trustOf, certOf, keyOf, anonOf, depthOf]
+      | other n => simp [runSteps, stepCtx, hg, ih, refusedIn, stepRefuses, verifyOf, minOf, trustOf, certOf, keyOf, anonOf, depthOf]
 
 end Iora.Tls
 
@@ -107,7 +112,8 @@ theorem buildCtx_eq (blk : CtxBlock) (role : Mode) (cfg : Cfg) (f : Files) :
         if refusedIn { cfg := cfg } f blk.steps then .refused
         else .built { role := role, verify := verifyOf { cfg := cfg } blk.steps [], minProto := minOf { cfg := cfg } blk.steps none,
                       trust := trustOf { cfg := cfg } blk.steps .none, certLoaded := certOf { cfg := cfg } blk.steps false,
-                      keyLoaded := keyOf { cfg := cfg } blk.steps false, anon := anonOf { cfg := cfg } blk.steps false }
+                      keyLoaded := keyOf { cfg := cfg } blk.steps false, anon := anonOf { cfg := cfg } blk.steps false,
+                      depth := depthOf { cfg := cfg } blk.steps none }
       else .absent := by
   unfold buildCtx
   simp only [runSteps_eq]
@@ -344,10 +350,11 @@ theorem allTrust_iff {p : TrustSel → Bool} : allTrust p = true ↔ ∀ b, p b 
   · intro h b; simp only [allTrust, Bool.and_eq_true] at h; cases b <;> simp [h.1.1, h.1.2, h.2]
   · intro h; simp [allTrust, h]
 
-def allCert (p : CertKind → Bool) : Bool := p .valid && p .selfSigned && p .expired && p .wrongName && p .keyMismatch
+def allCert (p : CertKind → Bool) : Bool :=
+  p .valid && p .selfSigned && p .expired && p .wrongName && p .keyMismatch && p .sanOther && p .cnOnly
 theorem allCert_iff {p : CertKind → Bool} : allCert p = true ↔ ∀ b, p b = true := by
   constructor
-  · intro h b; simp only [allCert, Bool.and_eq_true] at h; obtain ⟨⟨⟨⟨h1, h2⟩, h3⟩, h4⟩, h5⟩ := h; cases b <;> assumption
+  · intro h b; simp only [allCert, Bool.and_eq_true] at h; obtain ⟨⟨⟨⟨⟨⟨h1, h2⟩, h3⟩, h4⟩, h5⟩, h6⟩, h7⟩ := h; cases b <;> assumption
   · intro h; simp [allCert, h]
 
 def allCCert (p : CCertKind → Bool) : Bool := p .none && p .valid && p .untrusted && p .expired
